@@ -262,7 +262,7 @@ def run(ctx):
         "with the window across a page boundary at 1024 / 2^32 / 2^63 (rotating)"
         % ("" if q else "; and every history of <= 3 stores / clones (value types alternating)"))
     ctx.extra["generated_histories"] = sum(n for _, n in hists)
-    ctx.extra["random_sessions"] = nrand
+    ctx.extra["random_sessions"] = per * ((nrand + per - 1) // per)
     ctx.extra["random_max_ops"] = ops
     ctx.assumptions += [
         "TLC and the CommunityModules Json/IOUtils overrides",
